@@ -77,7 +77,7 @@ SPEC = {
                                 "img_hl_pairs_compared": 500, "img_hl_visible": 900,
                                 "img_hl_workers[str]": 400, "img_hl_workers[int]": 400,
                                 "img_hl_workers[tuple]": 400}},
-    "budget_s": {"quick": 40, "thorough": 520},
+    "budget_s": {"quick": 150, "thorough": 900},
     "assumptions": [
         "ordered/unique fibers; integer coordinates (tuple coordinates only as produced by flattenRanks)",
         "saved-position statistics are not part of the snapshot (getPayload/getPosition with start_pos record them)",
